@@ -6,7 +6,10 @@
 (* implementation has accepted per issuer so far (the statement's "raises     *)
 (* that issuer's cumulative payout" is relative to what was accepted before), *)
 (* `credited` = sum of the amounts the real ChequeStore.ReceiveCheque         *)
-(* returned per issuer, `recv` = the per-peer received totals last observed.  *)
+(* returned per issuer, `recv` = the per-peer received totals last observed,   *)
+(* `reg` = the registration as the statement defines it (first-wins,          *)
+(* one-to-one), advanced by the handshakes that were performed -- never        *)
+(* resynchronised from the address book, which is only observed for notes.     *)
 EXTENDS ChequeStore, TraceKit
 
 MCKeys == 1..3
@@ -19,7 +22,9 @@ VARIABLES l, bad, notes
 ChequeOf(e) == [from |-> e.from, issuer |-> e.issuer, signer |-> e.signer, rcpt |-> e.rcpt, cum |-> e.cum]
 
 ObsLast(e) == [k \in Keys |-> e.st.last[k]]
-ObsRecv(e) == [p \in RegPeers |-> e.st.recv[p]]
+ObsRecv(e) == [p \in AllPeers |-> e.st.recv[p]]
+\* what the address book answers for the peer after the event (0 = unknown, 9 = an address outside Keys)
+ObsReg(e) == [p \in AllPeers |-> e.st.reg[p]]
 
 MaxOf(a, b) == IF a > b THEN a ELSE b
 
@@ -27,29 +32,39 @@ MaxOf(a, b) == IF a > b THEN a ELSE b
 HiAfter(e, s) == IF e.op = "cheque" /\ e.accepted
                  THEN [s EXCEPT ![e.issuer] = MaxOf(@, e.cum)] ELSE s
 \* credited per issuer after the event (amounts returned by the real store)
-CredAfter(e, s) == IF e.op = "cheque" THEN [s EXCEPT ![e.issuer] = @ + e.amount] ELSE s
+CredAfter(e, s) == IF e.op \in {"cheque", "handshake"} THEN [s EXCEPT ![e.issuer] = @ + e.amount] ELSE s
 
 \* verdict clauses: the statement of C30 over what was observed
 Verdict(e, hi, cr) ==
-  IF e.op # "cheque" THEN <<>>
+  IF e.op = "handshake" THEN
+       \* a registration is not a cheque: nothing is accepted or credited, no peer's total moves
+       Clause("C30:credited_total_equals_highest_accepted_payout", \A k \in Keys : cr[k] = hi[k])
+    \o Clause("C30:last_received_cheque_is_highest_accepted", ObsLast(e) = hi)
+    \o Clause("C30:received_total_moves_only_for_issuers_peer", \A p \in AllPeers : ObsRecv(e)[p] = recv[p])
+  ELSE IF e.op # "cheque" THEN <<>>
   ELSE LET c == ChequeOf(e) IN
        Clause("C30:accept_requires_this_node_as_recipient", e.accepted => ForSelf(c))
     \o Clause("C30:accept_requires_signature_of_stated_issuer", e.accepted => SignedByIssuer(c))
     \o Clause("C30:accept_requires_higher_cumulative_payout", e.accepted => Raises(last, c))
-    \o Clause("C30:accept_requires_sender_registered_as_issuer", e.accepted => FromIssuersPeer(c))
+    \o Clause("C30:accept_requires_sender_registered_as_issuer", e.accepted => FromIssuersPeer(reg, c))
     \o Clause("C30:credited_total_equals_highest_accepted_payout", \A k \in Keys : cr[k] = hi[k])
     \o Clause("C30:last_received_cheque_is_highest_accepted", ObsLast(e) = hi)
     \o Clause("C30:received_total_moves_only_for_issuers_peer",
-              /\ \A p \in RegPeers : ObsRecv(e)[p] # recv[p] => (e.accepted /\ Reg(p) = c.issuer)
-              /\ (e.accepted /\ Acceptable(last, c)) => ObsRecv(e)[c.from] = c.cum)
+              /\ \A p \in AllPeers : ObsRecv(e)[p] # recv[p] => (e.accepted /\ reg[p] = c.issuer)
+              /\ (e.accepted /\ Acceptable(last, reg, c)) => ObsRecv(e)[c.from] = c.cum)
 
-\* conformance notes (never alarm): the converse direction and panics
+\* conformance notes (never alarm): the converse direction, the address book against the registration, panics
 Notes(e) ==
-  IF e.op # "cheque" THEN <<>>
-  ELSE    Clause("valid_cheque_not_accepted", Acceptable(last, ChequeOf(e)) => e.accepted)
+  IF e.op = "handshake" THEN
+          Clause("handshake_outcome_differs_from_first_wins_registration", e.accepted = (RegAfter(reg, e.from, e.issuer)[e.from] # 0))
+       \o Clause("address_book_differs_from_registration", ObsReg(e) = RegAfter(reg, e.from, e.issuer))
+       \o Clause("handshake_panicked", ~e.panicked)
+  ELSE IF e.op # "cheque" THEN <<>>
+  ELSE    Clause("valid_cheque_not_accepted", Acceptable(last, reg, ChequeOf(e)) => e.accepted)
        \o Clause("receive_panicked", ~e.panicked)
 
-TInit == /\ l = 1 /\ last = Zero(Keys) /\ credited = Zero(Keys) /\ recv = Zero(RegPeers)
+TInit == /\ l = 1 /\ last = Zero(Keys) /\ credited = Zero(Keys) /\ recv = Zero(AllPeers)
+         /\ reg = Reg0 /\ claim = Reg0
          /\ res = [op |-> "init"] /\ bad = <<>> /\ notes = <<>>
 
 TStep ==
@@ -66,6 +81,9 @@ TStep ==
         /\ last' = hi
         /\ credited' = IF cs = <<>> THEN cr ELSE hi          \* resynchronise
         /\ recv' = ObsRecv(e)
+        /\ reg' = IF start THEN [p \in AllPeers |-> IF e.reg0[p] = 1 THEN p ELSE 0]
+                  ELSE IF e.op = "handshake" THEN RegAfter(reg, e.from, e.issuer) ELSE reg
+        /\ claim' = IF start THEN reg' ELSE IF e.op = "handshake" THEN [claim EXCEPT ![e.from] = e.issuer] ELSE claim
         /\ res' = [op |-> e.op]
 
 TSpec == TInit /\ [][TStep]_<<vars, l, bad, notes>>
